@@ -1,8 +1,10 @@
 #!/bin/sh
-# Offline setup: nothing to build (TLA+ modules are interpreted by TLC, the harness is
-# Python run from /venv against /repo's working tree).  Sanity-check the toolchain.
+# Offline setup: nothing to compile (TLA+ modules are interpreted by TLC, the harness is Python run
+# from /venv against /repo's working tree).  Sanity-check the toolchain and self-test the oracle:
+# spec/Ref.tla is evaluated by TLC against REAL NumPy / pandas answers (exit 2 on a transcription error).
 set -e
 cd /verif
-mkdir -p gen out evidence
-java -cp /opt/veriftools/tla/tla2tools.jar tlc2.TLC -h >/dev/null 2>&1 || true
-PYTHONPATH=/repo:/verif /venv/bin/python -c "import flox, dask, numpy, pandas, harness.tlaval, harness.project; print('setup ok: flox from', flox.__file__)"
+mkdir -p gen out/work evidence
+export PYTHONPATH=/repo:/verif PYTHONHASHSEED=0 PYTHONWARNINGS=ignore
+/venv/bin/python -c "import flox, dask, numpy, pandas, xarray, harness.tlaval, harness.project; print('setup: flox from', flox.__file__)"
+/venv/bin/python -m harness.selftest 2>&1 | grep -E "^selftest|ORACLE-MISMATCH|MACHINERY" 
